@@ -18,14 +18,21 @@ LEVEL = "proof"
 META = {
     "category": "proof",
     "text": "Coq theorems (17, no axioms) over an executable model of the index/slice core of starlark/eval.go (asIndex, indices, slice, signum64, the Slice loops of String/Bytes/List/Tuple, getIndex/setIndex), of range values and rangeValue.Slice, and of all 30 string methods, the 7 list methods, reversed/zip/enumerate/any/all, sorted/min/max, concatenation and repetition of library.go / eval.go. slice_correct: for every sequence length, every None / int of any size / non-int operand triple and every stride the Go computation -- bounds, then the loop run with fuel len+1 or the step=1 fast path -- returns exactly Python's slice (the elements at slice.indices' arithmetic progression), never panics or runs out of fuel, and fails exactly for a zero stride or a non-int operand; the same for ranges (range_slice_correct, through the unsigned division of rangeLen), for x[i] and x[i]=v, and for the (start,end) normalisation shared by the methods (indices_clamp). string_methods_correct_partial / list_methods_correct / builtins_correct / repeat_correct: for EVERY argument tuple (arity, types, None, omitted optionals, huge integers) each method equals an independently written Python-semantics specification: sub-range methods, split/rsplit with a separator for every maxsplit (rightmost, also overlapping), the hand-written splitspace/rsplitspace loops against a word splitter, splitlines, partition, replace, join, strip family, case mapping and predicates, list insert/pop/index/remove/extend, zip (shortest), enumerate, repetition guards. sorted_correct: on the computed keys the implementation returns the unique list the specification allows -- ordered by key, descending when reverse=True, ties in input order in BOTH directions (stability of the reversed sort); minmax_correct / minmax_unique: the first extremal element, failure exactly on an empty sequence. The one input class where the full statement is false -- strip(\"\") -- is excluded by a boolean guard and refuted by strip_empty_cutset_refuted (known finding). The hand-written model is tied to /repo on every run: the harness executes the real operations exhaustively (all (lo,hi,step) in ([-n-3,n+3] U None)^3 for receivers of length 0-8 over a 3-letter alphabet, for string, bytes, list, tuple, range) and on dense method argument tuples, huge counts in a child process, random receivers to length 40; every case is checked against a naive Go copy of the specification; a sample is evaluated inside Coq against both the model (correspondence) and Spec.v (oracle), and in CPython 3 as an independent opinion on Spec.v.",
-    "note": "Trusted: Coq kernel + vm_compute; the harness, its generators and its Go copy of the specification; Go's strings/unicode functions are modelled by their documented meaning on ASCII (library oracles, validated only by the correspondence run); CPython validates Spec.v on the shared subset, with the deliberate differences of spec.md listed by class in the evidence (cpython_documented_differences). string.format and % interpolation have no Coq model here: every executed case is checked against a Go copy of their specification (field parser with per-field conversion / spec / argument, automatic vs numbered vs keyword fields, brace escapes; % conversions s r d i o x X c, %(key), argument counting; str / repr of values) and a sample against CPython, whose differing string quoting in repr is a documented difference. sorted/min/max are modelled on integer keys (elements named by their positions); other key types (strings, tuples, floats, mixed 1/1.0) and the failure on unordered keys are covered by the Go copy of the specification and CPython; sort.Stable is a library oracle (reference stable insertion sort). Sequence lengths are bounded by 2^61 (slices) / 2^31 (index expressions) in the theorems; range receivers have 32-bit parameters (wider range arithmetic is C10).",
+    "note": "Trusted: Coq kernel + vm_compute; the harness, its generators and its Go copy of the specification; Go's strings/unicode functions are modelled by their documented meaning on ASCII (library oracles, validated only by the correspondence run); CPython validates Spec.v on the shared subset, with the deliberate differences of spec.md listed by class in the evidence (cpython_documented_differences). string.format has a Coq model (Format.v: the scanning loop of string_format) and an independent parse-then-evaluate specification (FormatSpec.v) with argument values abstract (their str / repr texts, observed from the interpreter's value printer, are parameters: how values print is C15); format_correct_partial proves model = specification for all templates whose numeric field names are below 2^63 and format_correct_refuted shows the unguarded statement false (decimal wraps: \"{18446744073709551616}\".format(\"a\") is \"a\"); a sample of the executed format cases is evaluated against both, every executed case against a Go copy of the specification and a sample against CPython. % interpolation has no Coq model here: every executed case is checked against a Go copy of its specification (% conversions s r d i o x X c, %(key), argument counting; str / repr of values) and a sample against CPython, whose differing string quoting in repr is a documented difference. sorted/min/max are modelled on integer keys (elements named by their positions); other key types (strings, tuples, floats, mixed 1/1.0) and the failure on unordered keys are covered by the Go copy of the specification and CPython; sort.Stable is a library oracle (reference stable insertion sort). Sequence lengths are bounded by 2^61 (slices) / 2^31 (index expressions) in the theorems; range receivers have 32-bit parameters (wider range arithmetic is C10).",
     "technique": "Coq proof over executable model + exhaustive differential correspondence (vm_compute) + Spec.v / Go / CPython oracles",
 }
 
 HEADER = """From Coq Require Import ZArith NArith Bool List.
 From SV Require Import Common.GoInt C13.Base C13.Index C13.Str C13.Seq C13.Spec.
+From SV Require Import C13.FormatBase C13.Format C13.FormatSpec.
 Import ListNotations.
 Open Scope Z_scope.
+
+(* string.format: an argument value is represented by the two texts the
+   interpreter printed for it, (str(x), repr(x)) *)
+Definition fval : Type := (list N * list N)%type.
+Definition fstr (v : fval) : list N := fst v.
+Definition frepr (v : fval) : list N := snd v.
 
 Inductive case :=
 | CSlice (xs : list Z) (lo hi st : arg) (r : outcome (list Z))
@@ -39,7 +46,8 @@ Inductive case :=
 | CStar (x y : val) (r : outcome val)
 | CPlus (x y : val) (r : outcome val)
 | CSorted (reverse : bool) (keys : list Z) (out : list nat)
-| CMinMax (is_max : bool) (keys : list Z) (r : outcome nat).
+| CMinMax (is_max : bool) (keys : list Z) (r : outcome nat)
+| CFormat (tpl : list N) (args : list fval) (kw : list (list N * fval)) (r : outcome (list N)).
 
 Definition zl_eqb (a b : list Z) : bool :=
   (fix go a b := match a, b with [], [] => true | x :: a', y :: b' => (x =? y) && go a' b' | _, _ => false end) a b.
@@ -75,6 +83,7 @@ Definition model_ok (c : case) : bool :=
   | CPlus x y r => outcome_eqb val_eqb (binary_plus x y) r
   | CSorted rev keys out => nl_eqb (sorted_impl rev keys) out
   | CMinMax mx keys r => outcome_eqb Nat.eqb (minmax_impl mx keys) r
+  | CFormat tpl args kw r => fres_observed (string_format fval fstr frepr tpl args kw) r
   end.
 
 (* oracle: the implementation did what the specification says (independent of the model) *)
@@ -95,6 +104,7 @@ Definition spec_ok (c : case) : bool :=
                          | Ok i => minmax_spec_ok mx keys (Some i)
                          | Err => minmax_spec_ok mx keys None
                          | _ => false end
+  | CFormat tpl args kw r => fres_observed (format_spec fval fstr frepr tpl args kw) r
   end.
 """
 
@@ -237,6 +247,8 @@ def coq_case(c):
             return None
         r = "Err" if obs["t"] == "err" else ("Panic" if obs["t"] == "panic" else "(Ok %s)" % zlist(after))
         return "(CSetIndex %s %s %s %s)" % (zlist(xs), coq_arg(args[0]), cz(int(args[1]["i"])), r)
+    if op == "call" and c["name"] == "format" and x["t"] == "str":
+        return coq_format_case(c)
     if op == "call":
         cargs = [coq_val(a) for a in args]
         if any(a is None for a in cargs):
@@ -282,6 +294,26 @@ def coq_case(c):
             return None
         return "(%s %s %s %s)" % ("CStar" if c["name"] == "*" else "CPlus", a, b, r)
     return None
+
+
+def coq_format_case(c):
+    """S.format(*args, **kwargs) -> CFormat; every argument is the pair of texts (str(x), repr(x)) that the
+    harness observed from the interpreter's own str / repr for it (c["texts"]: positional, then keyword values)."""
+    texts = c.get("texts") or []          # (omitted by the harness when there is no argument at all)
+    args, kw, obs = c.get("args") or [], c.get("kw") or [], c["obs"]
+    nvals = len(args) + len(kw) // 2
+    if len(texts) != 2 * nvals:
+        return None
+    pairs = ["(%s, %s)" % (coq_bytes(bytes.fromhex(texts[2 * i])), coq_bytes(bytes.fromhex(texts[2 * i + 1]))) for i in range(nvals)]
+    kws = []
+    for j in range(len(kw) // 2):
+        if kw[2 * j]["t"] != "str":
+            return None
+        kws.append("(%s, %s)" % (coq_bytes(vbytes(kw[2 * j])), pairs[len(args) + j]))
+    r = outcome(obs, lambda o: coq_bytes(vbytes(o)) if o["t"] == "str" else None)
+    if r is None:
+        return None
+    return "(CFormat %s %s %s %s)" % (coq_bytes(vbytes(c["x"])), clist(pairs[:len(args)]), clist(kws), r)
 
 
 def key_int(name, v):
@@ -677,7 +709,7 @@ def run(ctx):
     bad_spec_set = set(bad_spec)
     for i in bad_spec:
         c = refs[i]
-        ctx.finding(finding_key(c, "spec"), "%s returned %s; Spec.v says otherwise" % (describe(c), show(c["obs"])), c)
+        ctx.finding(finding_key(c, "spec"), "%s returned %s; %s says otherwise" % (describe(c), show(c["obs"]), "FormatSpec.v" if c.get("name") == "format" else "Spec.v"), c)
     only_model = [i for i in bad_model if i not in bad_spec_set]
     if only_model:
         c = refs[only_model[0]]
@@ -741,6 +773,7 @@ def run(ctx):
         "text is ASCII, so byte offsets and code points coincide (the property's quantifier)",
         "lists are unfrozen and not being iterated (freezing / mutation during iteration: C04, C06); element equality on the value domain used here cannot fail",
         "sequence lengths are below 2^31 for index expressions and below 2^61 for slices (Go cannot allocate more); range receivers have int32 parameters (range arithmetic overflow: C10)",
-        "string.format and % interpolation are not modelled in this property's Coq development: their oracle of record is the Go copy of the specification (classes format, interp: every sequence of up to 2 (quick) / 3 (thorough) template segments incl. !r / !s, specs, unknown conversions, missing positional / keyword arguments, against 7 argument sets / 19 operands); %e %f %g float formatting is compared with CPython only",
+        "string.format: the Coq model and specification take the str / repr text of every argument as given (observed per case from the interpreter's value printer: repr = Value.String(), str = the string itself or else repr, as spec.md defines str; the built-in str() additionally decodes bytes, which spec.md does not say -- C15's subject); the error class is observed only as \"the call failed\"; numeric field names of 19 or more digits are outside format_correct_partial (format_correct_refuted: decimal wraps past 2^64) and are not generated",
+        "% interpolation is not modelled in this property's Coq development: its oracle of record is the Go copy of the specification (class interp: every sequence of up to 2 (quick) / 3 (thorough) template segments, against 19 operands); %e %f %g float formatting is compared with CPython only",
         "sorted / min / max: the key function is applied outside the Coq model (keys are inputs); the Coq fragment has integer keys, sort.Stable is modelled by the reference stable insertion sort; every executed case (any key type, 16k+ with key ties) is checked against the Go copy of the specification and a sample against CPython",
     ])
